@@ -11,7 +11,11 @@ func init() {
 				return gosym.RunConfig{Name: name, PkgPath: modulePath + "/" + pkg, Entry: entry, Sched: true, Unwind: 6, AssertPrefix: "C17:",
 					Params: map[string]int64{"writes": w, "steps": 80}}
 			}
-			out := []gosym.RunConfig{mk("netctx-read-w1", "netctx", "VerifReadCtx", 1), mk("connctx-read-w1", "connctx", "VerifReadCtx", 1)}
+			out := []gosym.RunConfig{mk("netctx-read-w1", "netctx", "VerifReadCtx", 1), mk("connctx-read-w1", "connctx", "VerifReadCtx", 1),
+				mk("netctx-readfrom-w1", "netctx", "VerifReadFromCtx", 1),
+				// no data at all: the cancelled operation can only return through the forced deadline
+				mk("netctx-read-w0", "netctx", "VerifReadCtx", 0), mk("connctx-read-w0", "connctx", "VerifReadCtx", 0),
+				mk("netctx-readfrom-w0", "netctx", "VerifReadFromCtx", 0)}
 			if tier == "thorough" {
 				// two packets: explored within a time budget (reported as not covered when exceeded)
 				for _, c := range []gosym.RunConfig{mk("netctx-read-w2", "netctx", "VerifReadCtx", 2), mk("connctx-read-w2", "connctx", "VerifReadCtx", 2)} {
@@ -22,12 +26,12 @@ func init() {
 			return out
 		},
 		Bounds: func(tier string) []string {
-			return []string{"netctx.Conn.ReadContext and connctx.ConnCtx.ReadContext: one reader goroutine performing two ReadContext calls (first context cancelled by a canceller goroutine at an arbitrary moment, second context live), one writer goroutine delivering 1 (thorough 2) one-byte packets, the watcher goroutines the wrapper starts; every interleaving at lock / channel / select / atomic granularity"}
+			return []string{"netctx.Conn.ReadContext, netctx.PacketConn.ReadFromContext and connctx.ConnCtx.ReadContext: one reader goroutine performing two ReadContext calls (first context cancelled by a canceller goroutine at an arbitrary moment, second context live), one writer goroutine delivering 0 or 1 (thorough also 2) one-byte packets, the watcher goroutines the wrapper starts; every interleaving at lock / channel / select / atomic granularity"}
 		},
 		Assume: []string{
 			"the wrapped connection is a harness adapter over the module's packetio.Buffer (real code, with deadline.Deadline) - the composition udp.Conn uses; its Write side is not exercised",
 			"context.Context is a harness model: Done is closed by the canceller goroutine, Err reports Canceled exactly when Done is closed",
 			"goroutines run atomically between scheduling points; timers are a model",
 		},
-		Outside: []string{"WriteContext and the packet flavour (netctx.PacketConn)", "net.Pipe and OS sockets as the wrapped connection", "context deadlines (timeouts) as opposed to cancellation"}})
+		Outside: []string{"WriteContext / WriteToContext (the write direction of both flavours)", "net.Pipe and OS sockets as the wrapped connection", "context deadlines (timeouts) as opposed to cancellation"}})
 }
